@@ -127,7 +127,9 @@ theorem no_shared_write : (globalFacts.all fun g => g.writtenIn.all (· ∈ init
     `MinBits` only to its own `pd1`).  Entries ending in `[:]` are slice expressions over a
     package-level array or slice: each of them is the source of a `copy`/`range`/comparison
     (reviewed: `clenLens`, `complexLens`, `simpleLens*`, `dictLUT`, `endBlock`, `magic`,
-    `IdentityLUT`), never the destination of a write. -/
+    `IdentityLUT`), never the destination of a write.  Entries ending in `()` are method calls on a
+    package-level variable (a pointer-receiver method may mutate it): only the `Init` calls of
+    brotli's `initPrefixCodeLUTs`, which runs once from the package initialiser. -/
 theorem address_taken_expected :
     (globalFacts.filter fun g => !g.addrTakenIn.isEmpty).map (fun g => (g.pkg, g.name, g.addrTakenIn)) =
       [
@@ -135,11 +137,15 @@ theorem address_taken_expected :
        ("flate", "decDist", ["*Reader.readBlockHeader"]),
        ("flate", "decLit", ["*Reader.readBlockHeader"]),
        ("brotli", "complexLens", ["*bitReader.readComplexPrefixCode[:]"]),
-       ("brotli", "decCLens", ["*bitReader.readComplexPrefixCode"]),
-       ("brotli", "decCounts", ["*Reader.readPrefixCodes"]),
-       ("brotli", "decMaxRLE", ["*Reader.readContextMap"]),
-       ("brotli", "decWinBits", ["*Reader.readStreamHeader"]),
+       ("brotli", "decCLens", ["*bitReader.readComplexPrefixCode", "initPrefixCodeLUTs.Init()"]),
+       ("brotli", "decCounts", ["*Reader.readPrefixCodes", "initPrefixCodeLUTs.Init()"]),
+       ("brotli", "decMaxRLE", ["*Reader.readContextMap", "initPrefixCodeLUTs.Init()"]),
+       ("brotli", "decWinBits", ["*Reader.readStreamHeader", "initPrefixCodeLUTs.Init()"]),
        ("brotli", "dictLUT", ["*Reader.readCommands[:]"]),
+       ("brotli", "encCLens", ["initPrefixCodeLUTs.Init()"]),
+       ("brotli", "encCounts", ["initPrefixCodeLUTs.Init()"]),
+       ("brotli", "encMaxRLE", ["initPrefixCodeLUTs.Init()"]),
+       ("brotli", "encWinBits", ["initPrefixCodeLUTs.Init()"]),
        ("brotli", "simpleLens1", ["*bitReader.readSimplePrefixCode[:]"]),
        ("brotli", "simpleLens2", ["*bitReader.readSimplePrefixCode[:]"]),
        ("brotli", "simpleLens3", ["*bitReader.readSimplePrefixCode[:]"]),
